@@ -117,6 +117,25 @@ CHECKS = {
         "neighbours. On refined two-slab meshes of the four closed curves every element's space/time/weighted-L2 indicator is compared with an independent evaluation on the geometric patch (exact rational "
         "H^{1/4}, polynomial H^{1/2}, graded reference with Euclidean distances; order 17, 1e-4; polynomial residuals 1e-8), plus serial == pool bitwise, shortcut == direct, rotation invariance; judged by TLC with class coverage.",
    note="Residuals separable p(t) g(gamma(x)). Trusted: reference integrals (Gauss-Legendre on analytic integrands, graded at corners)."),
+ "C08": dict(level="exploration", design="§5 C08", engine="quadtree",
+   technique="QuadTree.tla post-conditions of boundary targeting (cell classification used by linform) + load vectors vs re-derived closed-form potentials, judged by TLC (Judge.tla) with class coverage",
+   text="QuadTree.tla guarantees exactly one identical cell and that touching cells have a segment end point as a corner; on the dyadic family of every unit piece of the three polygonal domains (time intervals starting "
+        "at 0 and later, aspect <= 32) linform is compared with the element integral of independently derived closed-form heat extensions (u0 = 1, sine product: 1e-5; x, sin(x) y, random quadratics: 1e-6), "
+        "linearity, additivity under time/space/quarter splitting, and the pointwise domain evaluation for t >= 0.05 side^2 (1e-5).",
+   note="Closed forms (Gaussian moments, complex erf) are trusted after an mpmath self-check; element integrals by graded tensor Gauss."),
+ "C20": dict(level="exploration", design="§5 C20", engine="estimators",
+   technique="Estimators.tla (quarter order == refine == repeat order, sign patterns) model-checked; generic-atom conformance and numerical equality with the definition judged by TLC (TraceEstim)",
+   text="TLC checks on STMesh states that the virtual quarters equal the rectangles of real `refine` and that the three sign patterns are what their names say, and verifies the harness's child order/signs "
+        "against the model. With matrices, load vectors and densities replaced by pseudo-random atoms keyed by element geometry, both real estimators must reproduce the model's formula; numerically both are "
+        "compared (1e-7) with an independent computation on a replayed copy refined by real bisection and assembled pair by pair (Dirichlet data on four curves, initial data on the unit square); vanishing, "
+        "non-negativity, pool == serial, Prolongate.",
+   note="One random mesh per curve per run. Trusted: numpy.linalg.solve."),
+ "C03": dict(level="exploration", design="§5 C03", engine="adaptiveloop",
+   technique="AdaptiveLoop.tla (driver protocol, configuration table) model-checked; unmodified example.py and the driver's entry points on refined meshes executed for all 24 accepted combinations; per-leaf orthogonality judged by TLC (TraceLoop)",
+   text="For every accepted (problem, domain) and both values of the straight-panel switch the unmodified example.py is run under runpy to its first residual and the driver's own lines are executed on randomly refined meshes; "
+        "mat @ Phi = rhs is checked and for every leaf |int r| <= 5e-5 int |r| + 1e-12 with an independent graded tensor rule whose break points are the mesh lines crossing the leaf; TLC validates the phase events "
+        "against the protocol, judges every leaf record and demands all 24 combinations.",
+   note="Meshes up to ~25 leaves in the quick tier. Trusted: the graded element integrator."),
 }
 
 NOT_YET = {}
@@ -161,6 +180,8 @@ def main():
              "kind_free_text": "rule registry extracted from source (RulesData.tla), scheme algebra (Schemes.tla), judges TraceRules / TraceSchemes / TraceSlobo; oracles: mpmath moments, rational closed forms"},
             {"name": "estimators", "path": "/verif/spec/Estimators.tla", "serves_properties": ["C09", "C20"],
              "kind_free_text": "patch structure of the Sobolev estimator and child order / sign patterns of the two-level estimators on top of STMesh"},
+            {"name": "adaptiveloop", "path": "/verif/spec/AdaptiveLoop.tla", "serves_properties": ["C03"],
+             "kind_free_text": "protocol of the adaptive driver example.py; trace judge spec/trace/TraceLoop.tla; worker harness/c03_worker.py"},
             {"name": "assembly", "path": "/verif/spec/Assembly.tla", "serves_properties": ["C17"],
              "kind_free_text": "TLA+ model of the assembly paths / pool / cache; behaviours replayed on real files and pools; judge spec/trace/TraceAssembly.tla"},
             {"name": "paraminit", "path": "/verif/spec/ParamInit.tla", "serves_properties": ["C18"],
